@@ -991,6 +991,9 @@ def regul_cross_check(ctx, report, status):
     from pandora import interval_tools
 
     report.translator_checks += 1
+    for msg in gen_kernels_regul.selftest():   # 16 rewrites that must be refused, 2 that must read as the same function
+        status.problem("translator", f"gen_kernels_regul self-test: {msg}")
+    report.translator_checks += 1
     rng = random.Random(ctx.seed * 7919 + 12)
     problems = 0
     for it in range(ctx.n(150, 1500)):
